@@ -96,6 +96,7 @@ fn gen(rng: &mut Rng, _idx: u64, tier: Tier) -> Case {
             }
             5 if rng.chance(0.3) => (gen::frame(rng, &mut acs[a], Kind::OtherDf, false), "otherdf".to_string()),
             6 if rng.chance(0.5) => { let (f, t) = overlay_edge_frame(rng, acs[a].icao); (f, t.to_string()) }
+            7 if n_ac > 1 && rng.chance(0.4) => { let other = acs[(a + 1) % n_ac].icao; (gen::acas_ra_frame(rng, &acs[a], other), "acas-ra-names-other".to_string()) }
             _ => { let k = *rng.pick(gen::COMMON_KINDS); (gen::frame(rng, &mut acs[a], k, false), format!("{:?}", k).to_lowercase()) }
         };
         let deco = rng.below(4) == 0;
